@@ -162,10 +162,16 @@ def maxAbs : List Rat → Rat
   | [] => 0
   | x :: xs => max (if x < 0 then -x else x) (maxAbs xs)
 
+/-- insertion into a descending list (structural recursion, so that it also reduces in the kernel) -/
+def insertDesc {α} (x : Rat × α) : List (Rat × α) → List (Rat × α)
+  | [] => [x]
+  | y :: ys => if y.1 ≤ x.1 then x :: y :: ys else y :: insertDesc x ys
+
 /-- descending order of the first component (`np.argsort(eigenvalues)[::-1]`; ties are excluded
 by the generators, the order among equal eigenvalues is unspecified in numpy) -/
-def sortDesc {α} (ev : List (Rat × α)) : List (Rat × α) :=
-  ev.mergeSort (fun a b => decide (b.1 ≤ a.1))
+def sortDesc {α} : List (Rat × α) → List (Rat × α)
+  | [] => []
+  | x :: xs => insertDesc x (sortDesc xs)
 
 def postprocess {α} (eps : Rat) (isInverse : Bool) (ev : List (Rat × α)) : List (Rat × α) :=
   let sorted := sortDesc ev
